@@ -7,6 +7,8 @@
      /repo/pycdlib/rockridge.py  RRNMRecord, RockRidge._add_name, RRSLRecord(+Component),
                                  RockRidge._new_symlink, RockRidge.symlink_path
    Conventions: code points, bytes, lengths are Z; byte strings are list Z; '/' = 47, '.' = 46.
+   The SL part models rockridge.py AFTER the repair "Rock Ridge symlink components are accounted and recorded by
+   their real length" (add_component(compslice, literal), recorded_length(), complen = length + 2).
 
    Tuple formats of the executable checkers (all return the list of FAILING cases, [] = agreement):
      bad_utf16_cases : list (list Z * (list Z * Z))
@@ -198,12 +200,10 @@ Definition sl_components (target : list Z) : list comp :=
 Definition comp_len_name (s : list Z) : Z :=
   if is_dot s || is_dotdot s || is_slash s then 2 else 2 + len s.
 
-(* Component.factory(name) followed by Component.record()/parse(): what is on disk for a name slice that
-   was (cont = true) or was not marked set_last_component_continued().  A slice that happens to spell
-   "." or ".." becomes a flag component and its continue bit is not written. *)
-Definition factory (cont : bool) (s : list Z) : comp :=
-  if is_dot s then CCurrent else if is_dotdot s then CParent else if is_slash s then CRoot
-  else CName cont s.
+(* Component.factory(name, literal=True) followed by Component.record()/parse(): a slice of a name is added
+   literally (flags 0 whatever it spells, even "." or ".."); cont = the slice was later marked by
+   set_last_component_continued().  On disk: (0|1, len, bytes). *)
+Definition factory (cont : bool) (s : list Z) : comp := CName cont s.
 
 (* Trace of what _new_symlink does: TBrk = "curr_sl.set_continued(); new RRSLRecord appended",
    TSpecial c = add_component of '/', '.', '..' as a whole path piece, TName cont s = add_component(s)
@@ -214,17 +214,18 @@ Inductive tok : Type :=
 | TName (cont : bool) (s : list Z).
 
 (* the `while not done` loop for a non-special piece; rest = comp[offset:], area = curr_comp_area_length.
-   minimum = Component.length(b'a') = 3.  Returns the trace and the final curr_comp_area_length.
-   `length = complen` (not complen - 2) in the fitting case is as coded: the tracker loses 2 extra bytes. *)
+   minimum = Component.length(b'a' if comp else b'') = 3 for a non-empty name (then rest is non-empty in every
+   turn), 2 for the empty name.  length = len(comp) - offset, cut to area - 2 when length + 2 > area; the
+   tracker loses exactly the recorded size length + 2.  Returns the trace and the final area. *)
 Fixpoint cut_name (fuel : nat) (r2 area : Z) (rest : list Z) : list tok * Z :=
   match fuel with
   | O => ([], area)
   | S f =>
-      let brk := area <? 3 in
+      let minimum := match rest with [] => 2 | _ => 3 end in
+      let brk := area <? minimum in
       let area1 := if brk then r2 else area in
       let pre := if brk then [TBrk] else [] in
-      let complen := comp_len_name rest in
-      let length := if area1 <? complen then area1 - 2 else complen in
+      let length := if area1 <? len rest + 2 then area1 - 2 else len rest in
       let n := Z.to_nat length in
       let area2 := area1 - length - 2 in
       if len rest <=? length                      (* offset + length >= len(comp): done *)
@@ -325,7 +326,9 @@ Definition symlink_path_model (rs : recs) : option (list Z) :=
   | _ => None
   end.
 
-(* the class of targets whose SL encoding loses nothing: no slice that must be continued spells "." / ".." *)
+(* (kept for the statements that used them: since name slices are recorded literally the round trip needs
+   neither of these two guards any more, LongNamesProofs.sl_roundtrip_all)
+   no slice that must be continued spells "." / ".." *)
 Definition tok_ok (t : tok) : bool :=
   match t with TName true s => negb (is_dot s || is_dotdot s) | _ => true end.
 Definition sl_ok (r1 r2 : Z) (target : list Z) : bool :=
@@ -339,8 +342,8 @@ Definition no_dot_names (target : list Z) : bool :=
   end.
 
 (* When no CE record exists (first pass of RockRidge.new), _new_symlink proceeds iff the true record length
-   fits: curr_dr_len + RRSLRecord.length(split) <= 254, i.e. sum Component.length(piece) <= room_first;
-   records opened by TBrk go to ce_entries and are never written (no CE record points to them). *)
+   fits: curr_dr_len + RRSLRecord.length(split) <= 254, i.e. sum Component.length(piece) <= room_first; then the
+   loop opens no further record (LongNamesProofs.sl_no_ce_single_record). *)
 Definition sl_accepts_no_ce (r1 : Z) (target : list Z) : bool :=
   fold_right (fun p acc => comp_len_name p + acc) 0 (split_slash target) <=? r1.
 Definition sl_written (has_ce : bool) (rs : recs) : recs := if has_ce then rs else firstn 1 rs.
@@ -414,13 +417,10 @@ Fixpoint cont_last_only (fl : bool) (cs : list comp) : Prop :=
   | c :: r => comp_continued c = false /\ cont_last_only fl r
   end.
 
-(* witnesses of the excluded classes (all reproduced against the real pycdlib) *)
+(* the former witnesses of the two repaired defects (now positive examples in LongNamesProofs.v) *)
 (* "a*129/.bbb/c*100", 136 bytes of room in the directory record: the name ".bbb" is cut after its dot *)
 Definition w_dot : list Z := repeat 97 129%nat ++ [47; 46; 98; 98; 98; 47] ++ repeat 99 100%nat.
-Definition w_dot_read : list Z := repeat 97 129%nat ++ [47; 46; 47; 98; 98; 98; 47] ++ repeat 99 100%nat.
 Definition w_dotdot : list Z := repeat 97 128%nat ++ [47; 46; 46; 98; 98; 98; 47] ++ repeat 99 100%nat.
-Definition w_dotdot_read : list Z :=
-  repeat 97 128%nat ++ [47; 46; 46; 47; 98; 98; 98; 47] ++ repeat 99 100%nat.
 (* "a/a/.../a" (40 names), 164 bytes of room, no CE record *)
 Definition w_many : list Z := join_slash (repeat [97] 40%nat).
 
@@ -430,11 +430,14 @@ Fixpoint words (alphabet : list Z) (n : nat) : list (list Z) :=
   | O => [[]]
   | S k => [] :: flat_map (fun w => map (fun c => c :: w) alphabet) (words alphabet k)
   end.
-(* on a non-empty target: pycdlib's reader = independent reader, and sl_ok <-> round trip *)
+(* on a non-empty target: pycdlib's reader = independent reader = the target *)
 Definition agree_on (r1 r2 : Z) (t : list Z) : bool :=
   let rs := sl_records r1 r2 (sl_components t) in
   match t with
   | [] => true
   | _ => match symlink_path_model rs with Some x => zlist_eqb x (sl_reassemble rs) | None => false end
-         && Bool.eqb (sl_ok r1 r2 t) (zlist_eqb (sl_reassemble rs) t)
+         && zlist_eqb (sl_reassemble rs) t
   end.
+
+(* bytes of the components of one record / of the uncut components *)
+Definition comps_size (cs : list comp) : Z := fold_right (fun c acc => comp_size c + acc) 0 cs.
